@@ -22,7 +22,7 @@ var c03Ops = []string{
 	"sort", "sort_by(.a)", "reverse", "unique", ".[1:]", ".[:-1]", "map(.)", "map(select(. != 1))", "filter(. != 1)", "[.[]]",
 	". + [9]", "[9] + .", "flatten", "group_by(.a)", "to_entries", "with_entries(.)", `pick(["a"])`, "pick([1, 0])", `omit(["a"])`, "omit([0])",
 	".a", ".[0]", "(.a = (.a | sort))", "(.a |= reverse)", "(.b = .a)", "del(.[0])", "del(.a)", ". * {\"c\": [2, 1]}", "unique_by(.a)", "[.[] | select(. != 1)]",
-	". - [1]", ".a - [0]", "(.a | keys)", "(.a + .b)", "map(.a)", "(.b = (.a | reverse))", "(.c = (.a | sort))", "(.b = (.a | .[1:]))", "(.c = [.a[]])", "(.b = (.a | map(.)))", "(.[0] = (.[1] | reverse))",
+	". - [1]", ".a - [0]", "(.a | keys)", "(.a + .b)", "map(.a)", "(.b = (.a | reverse))", "(.c = (.a | sort))", "(.b = (.a | .[1:]))", "(.c = [.a[]])", "(.b = [.a[]])", "(.b = (.a | map(.)))", "(.[0] = (.[1] | reverse))",
 }
 
 func c03Selections() []*refsem.E {
@@ -41,6 +41,12 @@ func c03Selections() []*refsem.E {
 		refsem.Bin("pipe", refsem.Idx(1), refsem.Idx(0)), refsem.Bin("union", refsem.Idx(10), refsem.Idx(2)),
 		// entries of several elements at once (in a list put together from several sources their recorded paths can coincide)
 		refsem.Bin("pipe", refsem.Leaf("splat"), refsem.Key("a")), refsem.Bin("union", refsem.Bin("pipe", refsem.Key("a"), refsem.Key("b")), &refsem.E{Op: "qkey", S: "a.b"}),
+		// elements of a list that an earlier step stored under another key (their values may have been copied from a map's)
+		refsem.Bin("pipe", refsem.Key("c"), refsem.Idx(0)), refsem.Bin("pipe", refsem.Key("b"), refsem.Bin("union", refsem.Idx(0), refsem.Idx(1))),
+		// selections that yield the key node of an entry: the entry goes
+		refsem.Un("keyof", refsem.Key("a")), refsem.Un("keyof", refsem.Bin("pipe", refsem.Key("a"), refsem.Key("b"))), refsem.Un("keyof", sel(refsem.Leaf("splat"), eq1)),
+		sel(refsem.Leaf("rdesc3"), refsem.Bin("eq", refsem.Leaf("self"), refsem.Lit(val.StrV("a")))),
+		refsem.Bin("union", refsem.Un("keyof", refsem.Key("a")), refsem.Key("b")),
 		// a value computed from a node is not a node of the document: nothing is selected
 		refsem.Bin("pipe", refsem.Key("a"), refsem.Leaf("length")), refsem.Bin("pipe", refsem.Idx(0), refsem.Leaf("length")),
 	}
